@@ -26,9 +26,35 @@ def exec_calls(site):
     return out
 
 
+def statement_count(text):
+    """number of SQL statements in the text (`;` outside string literals separates them)"""
+    t = sqlmod.strip_strings(text)
+    return len([x for x in t.split(";") if x.strip()])
+
+
+def clause_statement_api(prog, rep, sites, ext, label):
+    """rusqlite's single-statement entry points (execute / prepare / query_row / ...) refuse SQL holding several statements with
+    Error::MultipleStatement *before running anything*; only execute_batch runs them.  A bracket statement handed to the wrong one
+    never executes (e.g. `ROLLBACK TO x; RELEASE x` through `execute`: the rollback silently does not happen)."""
+    n = 0
+    for s in sites:
+        if s.fn.path not in ext:
+            continue
+        k = statement_count(s.stmt.text)
+        for c in exec_calls(s):
+            n += 1
+            ok = k <= 1 or c.name == "execute_batch"
+            rep.check(ok, "sql-bracket", "%s/statement-api/%s %s" % (label, s.stmt.kind, (s.stmt.table or s.stmt.text.split(";")[0].strip()[:30])),
+                      "%d statement(s) through Connection::%s" % (k, c.name),
+                      "`%s` holds %d statements but is run with Connection::%s, which rejects multi-statement SQL (MultipleStatement) without "
+                      "executing any of it" % (s.stmt.text[:60], k, c.name), c.loc())
+    return n
+
+
 def bracket(prog, rep, sites, method, label, is_open, is_close, is_abort):
     ext = prog.extent(method)
     ss = [s for s in sites if s.fn.path in ext]
+    clause_statement_api(prog, rep, sites, ext, label)
     opens = [s for s in ss if is_open(s.stmt)]
     closes = [s for s in ss if is_close(s.stmt)]
     aborts = [s for s in ss if is_abort(s.stmt)]
